@@ -3,6 +3,7 @@ package c11
 import (
 	"fmt"
 	"strings"
+	"time"
 
 	"github.com/hashicorp/consul/internal/verifmc/cmdlib"
 	"github.com/hashicorp/consul/internal/verifmc/ev"
@@ -131,6 +132,8 @@ func partLock(c *ev.Ctx) {
 		bound = 2
 	}
 	scs := lockScenarios(c.Quick())
+	// this part may use a quarter of the time budget
+	limit := time.Now().Add(time.Until(c.Deadline) / 4)
 	var total, deadlocks, unreplayable int64
 	outcomes := map[string]bool{}
 	maxPoints := 0
@@ -181,7 +184,7 @@ func partLock(c *ev.Ctx) {
 					if hung {
 						return
 					}
-					if c.Expired() {
+					if c.Expired() || time.Now().After(limit) {
 						capped = true
 						return
 					}
